@@ -391,6 +391,14 @@ int main(int argc, char** argv)
 				}
 			}
 			check_qr(dense, "dense_integer");
+			// the defining equations are scale free: the same matrix times an exact power of two far below / above 1 (round 10:
+			// an absolute "column is zero" threshold in the reflector is invisible at ordinary magnitudes)
+			for(int e2 : {-60, -200, 60})
+			{
+				Rows sc = dense;
+				for(auto& r : sc) for(double& x : r) x = std::ldexp(x, e2);
+				check_qr(sc, "dense_integer_scaled");
+			}
 			check_qr(up, "upper_triangular");
 			check_qr(perm, "signed_permutation");
 			check_qr(transpose(up), "lower_triangular");
